@@ -8,6 +8,7 @@ import (
 	sdk "github.com/cosmos/cosmos-sdk/types"
 	sdkerrors "github.com/cosmos/cosmos-sdk/types/errors"
 
+	teletypes "github.com/teleport-network/teleport/types"
 	clienttypes "github.com/teleport-network/teleport/x/xibc/core/client/types"
 	"github.com/teleport-network/teleport/x/xibc/core/packet/types"
 	"github.com/teleport-network/teleport/x/xibc/exported"
@@ -54,7 +55,7 @@ func (k Keeper) SendPacket(ctx sdk.Context, packet exported.PacketI) error {
 	if err != nil {
 		return sdkerrors.Wrapf(types.ErrABIPack, "SendPacket error , err: %s", err)
 	}
-	_ = ctx.EventManager().EmitTypedEvent(
+	_ = teletypes.EmitTypedEvent(ctx,
 		&types.EventSendPacket{
 			SrcChain: packet.GetSrcChain(),
 			DstChain: packet.GetDstChain(),
@@ -122,7 +123,7 @@ func (k Keeper) RecvPacket(ctx sdk.Context, msg *types.MsgRecvPacket) error {
 	// log that a packet has been received & executed
 	k.Logger(ctx).Info("packet received", "packet", fmt.Sprintf("%v", packet))
 
-	_ = ctx.EventManager().EmitTypedEvent(
+	_ = teletypes.EmitTypedEvent(ctx,
 		&types.EventRecvPacket{
 			SrcChain: packet.GetSrcChain(),
 			DstChain: packet.GetDstChain(),
@@ -138,7 +139,7 @@ func (k Keeper) RecvPacket(ctx sdk.Context, msg *types.MsgRecvPacket) error {
 	if packet.GetDstChain() != chainName && found {
 		k.SetPacketCommitment(ctx, packet.GetSrcChain(), packet.GetDstChain(), packet.GetSequence(), commitment)
 
-		_ = ctx.EventManager().EmitTypedEvent(&types.EventSendPacket{
+		_ = teletypes.EmitTypedEvent(ctx, &types.EventSendPacket{
 			Sequence: fmt.Sprintf("%d", packet.GetSequence()),
 			SrcChain: packet.GetSrcChain(),
 			DstChain: packet.GetDstChain(),
@@ -203,7 +204,7 @@ func (k Keeper) WriteAcknowledgement(
 		return sdkerrors.Wrapf(types.ErrABIPack, "SendPacket error , err: %s", err)
 	}
 
-	_ = ctx.EventManager().EmitTypedEvent(
+	_ = teletypes.EmitTypedEvent(ctx,
 		&types.EventWriteAck{
 			SrcChain: packet.GetSrcChain(),
 			DstChain: packet.GetDstChain(),
@@ -286,7 +287,7 @@ func (k Keeper) AcknowledgePacket(
 	// log that a packet has been acknowledged
 	k.Logger(ctx).Info("packet acknowledged", "packet", fmt.Sprintf("%v", packet))
 
-	_ = ctx.EventManager().EmitTypedEvent(
+	_ = teletypes.EmitTypedEvent(ctx,
 		&types.EventAcknowledgePacket{
 			SrcChain: packet.GetSrcChain(),
 			DstChain: packet.GetDstChain(),
@@ -306,7 +307,7 @@ func (k Keeper) AcknowledgePacket(
 			ackCommitment,
 		)
 
-		_ = ctx.EventManager().EmitTypedEvent(&types.EventWriteAck{
+		_ = teletypes.EmitTypedEvent(ctx, &types.EventWriteAck{
 			Sequence: fmt.Sprintf("%d", packet.GetSequence()),
 			SrcChain: packet.GetSrcChain(),
 			DstChain: packet.GetDstChain(),
